@@ -236,3 +236,25 @@ Proof.
   intros H ND. rewrite kv_parse_distinct by assumption. cbn [res_bind].
   destruct kvs as [|kv r]; [reflexivity|]. cbn [cast_params]. now apply cast_dict_exact.
 Qed.
+
+(* ---------- the statements of Props/C18.v that collect several of the lemmas above ---------- *)
+Lemma bool_spellings {F O : Type} (P : pyprims F O) (s : str) :
+  (In (p_lower P s) true_words -> str_to_bool P s = Ok true) /\
+  (In (p_lower P s) false_words -> str_to_bool P s = Ok false) /\
+  (forall b, str_to_bool P s = Ok b -> In (p_lower P s) (if b then true_words else false_words)).
+Proof. split; [apply str_to_bool_true|]. split; [apply str_to_bool_false|apply str_to_bool_ok]. Qed.
+
+Lemma converter_table {F O : Type} (P : pyprims F O) (v : str) :
+  convert P ABool v = (dor b <- str_to_bool P v; Ok (VBool b)) /\
+  convert P AInt v = (dor z <- p_int P v; Ok (VInt z)) /\
+  convert P AFloat v = (dor f <- p_float P v; Ok (VFloat f)) /\
+  convert P AStr v = Ok (VStr v) /\
+  convert P ANone v = Err 26 /\
+  (forall n, convert P (AOther n) v = (dor o <- p_call_other P n v; Ok (VOther o))).
+Proof. repeat split. Qed.
+
+Lemma kv_word_cases (dest : option (list (str * str))) (k v w : str) :
+  (~ In 61 k -> ~ In 61 v -> kv_append dest [k ++ 61 :: v] = Ok (Some (kdict_set str_eqb (opt_or_empty dest) k v))) /\
+  (~ In 61 w -> kv_append dest [w] = Err 21) /\
+  (~ In 61 k -> In 61 v -> kv_append dest [k ++ 61 :: v] = Err 21).
+Proof. split; [apply kv_append_ok|]. split; [apply kv_append_no_equals|apply kv_append_value_with_equals]. Qed.
